@@ -20,7 +20,8 @@ from pyvc.interp import PyRaise
 from pyvc.harness import native_call
 
 ASSUMPTIONS = [
-    'requests.post returns an object with status_code:int, text:str and json() -> JSON value or ValueError (assumed)',
+    'requests.post returns a requests.Response: status_code:int, text:str, json() -> JSON value or ValueError, and a TRUTH VALUE '
+    'that is False for every 4xx / 5xx reply (Response.__bool__ is `ok`) (assumed)',
     'JSON reply bodies are explored by SHAPE: non-JSON, null, number, bool, two strings, two lists, five error-object '
     'shapes, result object - contents (strings) symbolic',
     'json.dumps is an injective serialisation (uninterpreted)',
@@ -41,6 +42,10 @@ class SymResponse(object):
         self.s_error, self.s_msg, self.s_cause = E.new_str('err'), E.new_str('errmsg'), E.new_str('cause')
         self.r_access, self.r_client = E.new_str('newAccess'), E.new_str('newClient')
         self.r_id, self.r_name = E.new_str('newId'), E.new_str('newName')
+
+    def __bool__(self):
+        # requests.Response.__bool__ returns `ok`: an error reply is FALSY, so `if not res` is no None-guard (seeded change C19-r16)
+        return bool(self.status_code < 400)
 
     def json(self):
         s = self.shape
@@ -376,14 +381,15 @@ class Operation(Unit):
                           ('; join on all 3^5 presence combinations of the token fields' if self.op == 'join' else ''))
 
 
-class _Resp(object):
-    def __init__(self, status, body):
-        self.status_code = status
-        self.text = body or ''
-        self._body = body
-
-    def json(self):
-        return json.loads(self._body) if self._body is not None else (_ for _ in ()).throw(ValueError('no json'))
+def _Resp(status, body):
+    """A genuine requests.Response (its truth value, .ok, .text and .json() are the library's own), filled in as the HTTP
+    adapter would for a reply with this status and body."""
+    r = requests.Response()
+    r.status_code = status
+    r._content = (body or '').encode('utf-8')
+    r.encoding = 'utf-8'
+    r.url = 'https://authserver.mojang.com/'
+    return r
 
 
 def run_with_stub(op, status, body, client='client'):
